@@ -114,8 +114,34 @@ class _LambdaParams(ast.NodeTransformer):
         return n
 
 
+class _CompVars(ast.NodeTransformer):
+    """the variables a comprehension binds are numbered like lambda parameters: [F(x) for x in d] is [F(term) for term in d]"""
+    def __init__(self):
+        self.depth = 0
+
+    def _comp(self, n):
+        bound = []
+        for g in n.generators:
+            for x in ast.walk(g.target):
+                if isinstance(x, ast.Name) and x.id not in bound:
+                    bound.append(x.id)
+        mapping = {p: "_c%d_%d" % (self.depth, k) for k, p in enumerate(bound)}
+        self.depth += 1
+        n = self.generic_visit(n)
+        self.depth -= 1
+        first = n.generators[0].iter            # evaluated in the enclosing scope
+        n = _Rename(mapping).visit(n)
+        for g in n.generators:
+            for x in ast.walk(g.target):
+                if isinstance(x, ast.Name) and x.id in mapping:
+                    x.id = mapping[x.id]
+        return n
+
+    visit_ListComp = visit_SetComp = visit_GeneratorExp = visit_DictComp = _comp
+
+
 def canon_lambdas(expr):
-    return _LambdaParams().visit(copy.deepcopy(expr))
+    return _CompVars().visit(_LambdaParams().visit(copy.deepcopy(expr)))
 
 
 def key(expr):
